@@ -441,6 +441,26 @@ func (vc *VC) execRange(x *ast.RangeStmt, st *State, label string) *State {
 			return st
 		}
 		n = vc.define("n", n)
+		// `for _, p := range ps { p.mutate() }` with pointer elements: p aliases
+		// ps[i]; the mutation is written back into the slice variable
+		var aliasObj types.Object
+		if sl, ok := u.(*types.Slice); ok {
+			if _, isPtr := vc.underlying(sl.Elem()).(*types.Pointer); isPtr && x.Tok == token.DEFINE {
+				if vid, ok := x.Value.(*ast.Ident); ok && vid.Name != "_" {
+					if cid, ok := ast.Unparen(x.X).(*ast.Ident); ok {
+						vobj := vc.cur().info.Defs[vid]
+						for _, m := range mods {
+							if m == vobj {
+								aliasObj = vobj
+								if cobj := vc.cur().info.ObjectOf(cid); cobj != nil {
+									mods = append(mods, cobj)
+								}
+							}
+						}
+					}
+				}
+			}
+		}
 		lr.ghost["$i"] = tInt(0)
 		lr.ghost["$n"] = n
 		vc.checkInvariants(lr, st, "inv-init")
@@ -460,6 +480,16 @@ func (vc *VC) execRange(x *ast.RangeStmt, st *State, label string) *State {
 			isStr = true
 		}
 		_, breaks := runBody(head, inb, idx, ev, func(back *State) {
+			if aliasObj != nil {
+				if nv, ok := back.vars[aliasObj].(Term); ok {
+					save := vc.safety
+					vc.safety = false
+					cur := vc.term(vc.evalExpr(x.X, back), x.Pos())
+					upd := Term{fmt.Sprintf("(mk.%s (len.%s %s) (store (arr.%s %s) %s %s) (isnil.%s %s))", cur.Sort, cur.Sort, cur.S, cur.Sort, cur.S, idx.S, nv.S, cur.Sort, cur.S), cur.Sort, cur.T}
+					vc.store(x.X, back, vc.define("alias", upd))
+					vc.safety = save
+				}
+			}
 			if isStr {
 				nx := vc.freshOfSort("i", SInt, types.Typ[types.Int])
 				vc.assume(back.pc, Term{fmt.Sprintf("(and (< %s %s) (<= %s %s))", idx.S, nx.S, nx.S, n.S), SBool, nil})
@@ -595,21 +625,24 @@ func (vc *VC) rangeIter(x *ast.RangeStmt, st *State, lr *loopRun, mods []types.O
 			}
 		}
 	}
+	// the value yielded with key k: spec function <iter>_val if declared,
+	// else an internal uninterpreted function
+	valTerm := func(k Term) Term {
+		if vsf := vc.w.specByName[specName+"_val"]; vsf != nil {
+			return vc.applySpec(vsf, []Term{recvArg, k})
+		}
+		vfn := vc.iterValueFn(specName, recvArg.Sort, ks, vc.ss.sortOf(vt))
+		return Term{fmt.Sprintf("(%s %s %s)", vfn, recvArg.S, k.S), vc.ss.sortOf(vt), vt}
+	}
 	member := func(k Term) Term {
 		if vt != nil {
-			// member(k) = exists v. spec(recv,k,v): use the value function
-			vfn := vc.iterValueFn(specName, recvArg.Sort, ks, vc.ss.sortOf(vt))
-			val := Term{fmt.Sprintf("(%s %s %s)", vfn, recvArg.S, k.S), vc.ss.sortOf(vt), vt}
-			return vc.applySpec(sf, []Term{recvArg, k, val})
+			return vc.applySpec(sf, []Term{recvArg, k, valTerm(k)})
 		}
 		return vc.applySpec(sf, []Term{recvArg, k})
 	}
 	var valueOf func(Term) Value
 	if vt != nil {
-		valueOf = func(k Term) Value {
-			vfn := vc.iterValueFn(specName, recvArg.Sort, ks, vc.ss.sortOf(vt))
-			return Term{fmt.Sprintf("(%s %s %s)", vfn, recvArg.S, k.S), vc.ss.sortOf(vt), vt}
-		}
+		valueOf = func(k Term) Value { return valTerm(k) }
 	}
 	return vc.rangeSet(x, st, lr, mods, ks, kt, member, valueOf, runBody)
 }
